@@ -702,14 +702,31 @@ def run(tier, replay=None):
         if h:
             suite.setdefault(h, origin)
 
+    # The TLC runs are independent subprocesses: they are started together (each has its own
+    # scratch directory) and their results are consumed in a fixed order.
+    from concurrent.futures import ThreadPoolExecutor
+    nsim, depth = (400, 9) if quick else (2000, 9)
+    pool = ThreadPoolExecutor(max_workers=6)
+    f_gen = pool.submit(tlc.run_tlc, SPEC, 'Poller', 'MC_Poller_stale.cfg', workers=1)   # one worker: the same
+    f_gen2 = pool.submit(tlc.run_tlc, SPEC, 'Poller', 'MC_Poller_preen.cfg', workers=1)  # shortest counterexample every run
+    f_hist = pool.submit(dump_histories, 'HIST_Poller.cfg' if quick else 'HIST_Poller_thorough.cfg')
+    f_sim = pool.submit(tlc.simulate, SPEC, 'Poller', 'SIM_Poller.cfg' if quick else 'SIM_Poller_thorough.cfg',
+                        nsim, depth, ctx.seed + 1)
+    if quick:
+        f_mc = pool.submit(tlc.model_check, SPEC, 'Poller', 'MC_Poller.cfg')
+    else:
+        f_mc = pool.submit(dump_histories, 'MC_Poller_cover.cfg', workers=1)
+        f_mc2 = pool.submit(tlc.model_check, SPEC, 'Poller', 'MC_Poller_thorough.cfg')
+    pool.shutdown(wait=False)
+
     cover_states = 0
     if quick:
-        mc = tlc.model_check(SPEC, 'Poller', 'MC_Poller.cfg')
+        mc = f_mc.result()
         mc_states, mc_trans = mc.distinct, mc.generated
     else:
         # ... dumped (one worker: deterministic search order): every state carries the history by
         # which TLC first reached it (prefix-closed per algorithm) = a state cover of the model
-        mc, cover, bads = dump_histories('MC_Poller_cover.cfg', workers=1)
+        mc, cover, bads = f_mc.result()
         mc_states, mc_trans = mc.distinct, mc.generated
         cover_states = mc.distinct
         if not any(k[0] == 'poll' and b == 'C10.ghost_fd' for k, b in bads.items()) or any(k[0] != 'poll' for k in bads):   # noqa
@@ -719,18 +736,18 @@ def run(tier, replay=None):
         for h in maximal({k[1] for k in cover}):
             add(h, 'tlc-state-cover')
         # the same over objects 1, 2, 3 (both ends of a pair registered), fixed algorithms
-        mc2 = tlc.model_check(SPEC, 'Poller', 'MC_Poller_thorough.cfg')
+        mc2 = f_mc2.result()
         mc_states += mc2.distinct
         mc_trans += mc2.generated
     phase('mc')
     # the defect generator: with the pinned Poll's stale map TLC must report C10 violated
-    gen = tlc.run_tlc(SPEC, 'Poller', 'MC_Poller_stale.cfg', workers=1)     # one worker: the same shortest counterexample every run
+    gen = f_gen.result()
     if gen.violated != 'ConformsAll' or not gen.error_trace:
         raise tlc.MachineryError('the "poll" variant of Poller.tla no longer violates C10 (got %r): the model lost its teeth' % gen.violated)
     gen_hist = hkey(gen.error_trace[-1][1]['hist'])
     gen_clause = gen.error_trace[-1][1].get('bad')
     # ... and with a Select whose preen lets the EBADF of a closed int descriptor escape
-    gen2 = tlc.run_tlc(SPEC, 'Poller', 'MC_Poller_preen.cfg', workers=1)
+    gen2 = f_gen2.result()
     if gen2.violated != 'ConformsAll' or not gen2.error_trace:
         raise tlc.MachineryError('the "selectesc" variant of Poller.tla does not violate C10 (got %r): the model lost its teeth' % gen2.violated)
     gen2_hist = hkey(gen2.error_trace[-1][1]['hist'])
@@ -739,7 +756,7 @@ def run(tier, replay=None):
 
     # 2. every environment history of <= 4 operations (no VIEW: one state per history), with the
     #    lines each algorithm emits
-    res, model4, _ = dump_histories('HIST_Poller.cfg' if quick else 'HIST_Poller_thorough.cfg')
+    res, model4, _ = f_hist.result()
     hist_states = res.distinct
     for k, v in model4.items():
         model.setdefault(k, v)
@@ -774,8 +791,7 @@ def run(tier, replay=None):
             tree_variant = kd
 
     #    seeded deeper behaviours of the same model
-    nsim, depth = (400, 9) if quick else (2000, 9)
-    _, behs = tlc.simulate(SPEC, 'Poller', 'SIM_Poller.cfg' if quick else 'SIM_Poller_thorough.cfg', nsim, depth, ctx.seed + 1)
+    _, behs = f_sim.result()
     for beh in behs:
         if not beh:
             continue
